@@ -32,6 +32,9 @@ class Box:
     def boom(self, *args):
         raise Boom(*args)  # SITE-MARK-C14 boom
 
+    def refuse(self, *things):
+        raise ValueError('refused')  # the arguments (possibly proxies) are not kept anywhere
+
     def leave(self, code):
         raise SystemExit(code)  # SITE-MARK-C14 leave
 
